@@ -342,6 +342,22 @@ def judge_breaker(bundle):
     return None
 
 
+def judge_probe(bundle):
+    """C07 across threads: between the admission of a half-open probe and the first report after it, no other call is admitted."""
+    if bundle.breaker is None:
+        return None
+    probe = None  # thread whose probe is in flight
+    for e in bundle.log:
+        if e[1] == "br.allow":
+            if e[2] and probe is not None:
+                return ("thread-race:second-call-admitted-while-probe-in-flight", f"call of thread {e[0]} was admitted (state {e[3]}) while the probe of thread {probe}'s call was still in flight")
+            if e[2] and e[3] == "half_open":
+                probe = e[0]
+        elif e[1] in ("br.success", "br.failure", "br.cancel"):
+            probe = None
+    return None
+
+
 def judge_identity(bundle):
     """C04/C01 per call: what a call delivers is one of ITS OWN attempt objects; its operation ran at most max_attempts times."""
     spec = bundle.spec
@@ -381,7 +397,7 @@ def describe_final(fin):
     return f"{fin[0]} {fin[1]!r}"[:160]
 
 
-JUDGES = {"events": judge_events, "tokens": judge_tokens, "breaker": judge_breaker, "identity": judge_identity}
+JUDGES = {"events": judge_events, "tokens": judge_tokens, "breaker": judge_breaker, "identity": judge_identity, "probe": judge_probe}
 
 
 def explore(ctx, spec, judges, bound, limit, nrandom, rng, prop_key=""):
@@ -489,6 +505,11 @@ FIXED = [
      "threads": [{"entry": "call", "outcomes": [["exc", "PERMANENT"]], "hooks": True}, {"entry": "call", "outcomes": [["exc", "TRANSIENT"], ["exc", "TRANSIENT"], ["ok"]], "hooks": True}]},
     {"max_attempts": 2, "delay": 0.25, "breaker": {"threshold": 2, "window": 100.0, "recovery": 5.0, "init": "expired"}, "shared_policy": True,
      "threads": [{"entry": "execute", "outcomes": [["res", "SERVER_ERROR"], ["res", "PERMANENT"]], "hooks": True}, {"entry": "execute", "outcomes": [["exc", "RATE_LIMIT"], ["ok"]], "hooks": True}]},
+    # the recovery timeout has just elapsed and several threads call at once
+    {"max_attempts": 1, "delay": 0.0, "breaker": {"threshold": 1, "window": 100.0, "recovery": 5.0, "init": "expired"}, "shared_policy": True,
+     "threads": [{"entry": "call", "outcomes": [["ok"]], "hooks": False}, {"entry": "call", "outcomes": [["ok"]], "hooks": False}, {"entry": "execute", "outcomes": [["exc", "TRANSIENT"]], "hooks": False}]},
+    {"max_attempts": 2, "delay": 0.25, "breaker": {"threshold": 2, "window": 100.0, "recovery": 5.0, "init": "expired"}, "shared_policy": False,
+     "threads": [{"entry": "execute", "outcomes": [["exc", "TRANSIENT"], ["ok"]], "hooks": True}, {"entry": "call", "outcomes": [["ok"]], "hooks": True}]},
 ]
 
 
